@@ -844,7 +844,7 @@ def _run_tree_case(case):
                          "hit": hit, "calls": calls, "key": key})
             # A miss of the code is passed on (the code's key also holds the values last PUSHED through value links,
             # which lag one run behind — outside the model); a hit of the code must be a hit of the model's key.
-            mlines.append("trun" if hit else "trun miss")
+            mlines.append("trun")
             if ra.startswith("ret:") and rb.startswith("ret:") and not hit and _outs(a) != _outs(b):
                 # the root ran, yet its outputs differ from the twin's: a NESTED composite answered from its own
                 # cache (the model keeps no nested caches) — the oracle reports it, the comparison stops here
